@@ -40,7 +40,7 @@ static const char *DIRECT[] = {"skyline_lu", "eigen_splu"};
 //---------------------------------------------------------------------------
 static void sub_block() {
     World &w = world(); mpi::communicator comm(w.comm); const int NC = 2 * 8 * 8 * 2;
-    long N = vf::opt_int("block_solves", vf::tier(8, 96)); long offset = (long)(w.size * 53 + vf::ctx().seed * 31);
+    long N = vf::opt_int("block_solves", vf::tier(24, 96)); long offset = (long)(w.size * 53 + vf::ctx().seed * 31);
     for (long idx = 0; idx < N; ++idx) {
         if (!vf::selected("block", idx)) continue;
         uint64_t cs = vf::case_seed("block", idx * 16 + w.size); Rng r(cs); vfm::seed_delays(cs, w.rank);
@@ -95,7 +95,7 @@ static void local_precond(ptree &prm, const std::string &path, Rng &r, std::stri
 
 static void sub_sdd_bp(const std::string &sub) {
     World &w = world(); mpi::communicator comm(w.comm); const bool sdd = sub == "sdd";
-    long N = vf::opt_int(sub + "_solves", vf::tier(8, 80));
+    long N = vf::opt_int(sub + "_solves", vf::tier(16, 80));
     static const char *IS[] = {"cg", "bicgstab", "gmres", "fgmres", "idrs", "lgmres", "bicgstabl"};
     for (long idx = 0; idx < N; ++idx) {
         if (!vf::selected(sub, idx)) continue;
